@@ -71,6 +71,24 @@ func buildSortTx(ins, outs string) *wire.MsgTx {
 	return tx
 }
 
+// aliasPrefixScripts re-points every output script that is a prefix of another output's script at the front of that
+// longer script's backing array (what a caller slicing scripts out of one buffer has): equal addresses, different
+// lengths. Values are unchanged.
+func aliasPrefixScripts(tx *wire.MsgTx) {
+	for i, o := range tx.TxOut {
+		best := -1
+		for j, p := range tx.TxOut {
+			if j != i && len(p.PkScript) > len(o.PkScript) && len(o.PkScript) > 0 && bytes.HasPrefix(p.PkScript, o.PkScript) &&
+				(best < 0 || len(p.PkScript) > len(tx.TxOut[best].PkScript)) {
+				best = j
+			}
+		}
+		if best >= 0 {
+			o.PkScript = tx.TxOut[best].PkScript[:len(o.PkScript)]
+		}
+	}
+}
+
 // elemSers: the full wire serialisation of every input and output on its own, sorted (a multiset)
 func elemSers(tx *wire.MsgTx) string {
 	t := []string{}
@@ -113,6 +131,7 @@ func execC18(c Case) string {
 	switch c.Op {
 	case "sort":
 		tx := buildSortTx(a[0], a[1])
+		aliasPrefixScripts(tx)
 		before := serTx(tx)
 		wasSorted := txsort.IsSorted(tx)
 		s := txsort.Sort(tx)
@@ -140,6 +159,7 @@ func execC18(c Case) string {
 		}
 		indep := bytes.Equal(before, serTx(tx))
 		tx2 := buildSortTx(a[0], a[1])
+		aliasPrefixScripts(tx2)
 		txsort.InPlaceSort(tx2)
 		meta = meta && bytes.Equal(sortedSer, serTx(tx2))
 		return strings.Join([]string{sortedIns, sortedOuts, b2s(wasSorted), b2s(isS), b2s(unchanged), b2s(meta), b2s(idem), b2s(indep), insTok(tx2), outsTok(tx2), heapFrame(a[0], a[1])}, " ")
@@ -378,6 +398,16 @@ func genC18(r *Rng, tier string, emit func(Case)) {
 				outs = append(outs, u64s(r.U64()%1000000000+uint64(j)*1000000007)+":"+hx(r.Bytes(r.Intn(5))))
 			}
 			e("sort", "large", strings.Join(ins, ","), strings.Join(outs, ","))
+		}
+		// more than 12 inputs (beyond insertion sort) with TIES in the sort key and different other fields: whatever
+		// order the ties get, Sort and InPlaceSort must give the same one, with every field carried along
+		if i%5 == 1 {
+			k := 13 + r.Intn(40)
+			ins := []string{}
+			for j := 0; j < k; j++ {
+				ins = append(ins, hashes[r.Intn(3)]+":"+idxs[r.Intn(2)]+":"+itoa(j%250))
+			}
+			e("sort", "tiesbig", strings.Join(ins, ","), "-")
 		}
 		// already sorted input
 		if i%7 == 0 {
